@@ -422,6 +422,7 @@ NormOut(us) == [i \in 1..Len(us) |-> NormItem(us[i])]
 \* ------------------------------------------------ bounded instances (cfg)
 AllKinds == {"NOOP", "APPEND", "SELECT", "UNSELECT", "CLOSE", "FETCH", "STORE", "SEARCH",
              "EXPUNGE", "UIDEXPUNGE", "COPY", "MOVE", "IDLE", "DONE"}
+Sets2     == {One(1), <<R(0, 0)>>}                                            \* 1  *
 Sets3     == {One(1), One(2), <<R(0, 0)>>}                                    \* 1  2  *
 SetsSmall == Sets3 \cup {<<R(1, 0)>>, <<R(2, 0)>>}                            \* + 1:*  2:*
 SetsWide  == SetsSmall \cup {One(3), <<R(1, 2)>>, <<R(2, 3)>>, <<R(3, 0)>>}  \* + 3  1:2  2:3  3:*
